@@ -314,7 +314,7 @@ func (n *node) Lookup(ctx context.Context, name string, out *fuse.EntryOut) (*fu
 				n.fs.s.report(fmt.Errorf("node.Lookup: %v", err))
 				return nil, syscall.EIO
 			}
-			entryToAttr(ino, tn.attr, &out.Attr)
+			entryToWhAttr(ino, tn.attr, &out.Attr)
 		default:
 			n.fs.s.report(fmt.Errorf("node.Lookup: uknown node type detected"))
 			return nil, syscall.EIO
